@@ -221,3 +221,73 @@ Example C08_f_ex3 :
   = FReturned [0%N; 0%N; 0%N; 63%N].
 Proof. vm_compute. reflexivity. Qed.
 End C08FloatExamples.
+
+(* ---- monotonicity of the cell in the centre, with NO regime hypothesis
+   (Proofs/FloatData2CoordMono.v) ---- *)
+From SP Require Import Proofs.FloatData2CoordMono.
+
+(* for every finite lo < hi, n = 2^p (1 <= p <= 31) and every v <= v' (PrimFloat.leb: neither is
+   NaN; +-infinity allowed): a larger centre never gets a smaller cell.  Nothing is assumed about
+   the intermediate results: v - lo may overflow to +-inf, the width hi - lo may overflow to +inf
+   (then n / inf = 0 and every cell is 0), the factor n / (hi - lo) may overflow to +inf (then
+   0 * inf = NaN -> INT64_MIN -> cell 0, a negative difference -> -inf -> cell 0, a positive
+   one -> +inf -> cell n - 1) *)
+Theorem C08_f_data2coord_monotone : forall v v' lo hi p, 1 <= p <= 31 ->
+    PrimFloat.is_finite lo = true -> PrimFloat.is_finite hi = true ->
+    PrimFloat.ltb lo hi = true ->
+    PrimFloat.leb v v' = true ->
+    f_data2coord v lo hi (2 ^ p) <= f_data2coord v' lo hi (2 ^ p).
+Proof. exact f_data2coord_monotone. Qed.
+Print Assumptions C08_f_data2coord_monotone.
+
+(* "outside -> border cell", lower side: a centre at or below lo (-infinity included) is in cell 0 *)
+Theorem C08_f_data2coord_below : forall v lo hi p, 1 <= p <= 31 ->
+    PrimFloat.is_finite lo = true -> PrimFloat.is_finite hi = true ->
+    PrimFloat.ltb lo hi = true ->
+    PrimFloat.leb v lo = true ->
+    f_data2coord v lo hi (2 ^ p) = 0.
+Proof. exact f_data2coord_below. Qed.
+Print Assumptions C08_f_data2coord_below.
+
+(* "outside -> border cell", upper side: a centre at or above hi (+infinity included) is in the
+   last cell - provided the width hi - lo does not overflow (nothing else is assumed: the factor
+   n / (hi - lo) may be subnormal or overflow to +inf, v - lo may overflow) *)
+Theorem C08_f_data2coord_above : forall v lo hi p, 1 <= p <= 31 ->
+    PrimFloat.is_finite lo = true -> PrimFloat.is_finite hi = true ->
+    PrimFloat.ltb lo hi = true ->
+    PrimFloat.is_finite (PrimFloat.sub hi lo) = true ->
+    PrimFloat.leb hi v = true ->
+    f_data2coord v lo hi (2 ^ p) = 2 ^ p - 1.
+Proof. exact f_data2coord_above. Qed.
+Print Assumptions C08_f_data2coord_above.
+
+(* ... and that proviso is needed: with finite lo < hi whose difference overflows (hi - lo = +inf,
+   n / inf = 0) the centre v = hi lands in cell 0, not in the last cell.  REFUTES the upper
+   clamping clause of the property for extents wider than the largest float *)
+Theorem C08_f_data2coord_above_overflow_refuted :
+  exists v lo hi p, 1 <= p <= 31 /\
+    PrimFloat.is_finite lo = true /\ PrimFloat.is_finite hi = true /\ PrimFloat.ltb lo hi = true /\
+    PrimFloat.leb hi v = true /\
+    PrimFloat.is_finite (PrimFloat.sub hi lo) = false /\
+    f_data2coord v lo hi (2 ^ p) = 0 /\ 0 <> 2 ^ p - 1.
+Proof. exact f_data2coord_above_overflow_refuted. Qed.
+Print Assumptions C08_f_data2coord_above_overflow_refuted.
+
+Module C08FloatMonoExamples.
+Import Coq.Floats.PrimFloat.
+(* a huge centre (1e308) and a tiny extent (the smallest subnormal): v - lo is finite, the factor
+   8 / 2^-1074 overflows to +inf; lo itself gives 0 * inf = NaN and lands in cell 0 *)
+Example C08_f_mono_ex1 :
+  map (fun v => f_data2coord v 0 0x0.0000000000001p-1022 (2 ^ 3))
+      [neg_infinity; (-0x1.1ccf385ebc8a0p+1023); 0; 0x0.0000000000001p-1022; 0x1.1ccf385ebc8a0p+1023;
+       infinity]%float
+  = [0; 0; 0; 7; 7; 7].
+Proof. vm_compute. reflexivity. Qed.
+(* an extent whose width overflows (hi - lo = +inf, n / inf = 0): every centre, hi and +infinity
+   included, is in cell 0 - monotone, but the upper border cell is never reached *)
+Example C08_f_mono_ex2 :
+  map (fun v => f_data2coord v (-0x1.e42d130773b76p+1023) 0x1.e42d130773b76p+1023 (2 ^ 3))
+      [neg_infinity; (-0x1.e42d130773b76p+1023); 0; 0x1.e42d130773b76p+1023; infinity]%float
+  = [0; 0; 0; 0; 0].
+Proof. vm_compute. reflexivity. Qed.
+End C08FloatMonoExamples.
